@@ -14,11 +14,15 @@ DevOf(d) ==
     [] d = "D_ttl0_node_panic" -> [panic |-> TRUE]
     [] d = "D_sigcache_ignores_time" -> [panic |-> TRUE]
     [] d = "D_extra_rrset_ignored" -> [state |-> AnswerO(NoInj(msg))]
+    [] d = "D_ent_node_as_signer" -> [state |-> "Bogus"]
 \* in some run after time had passed a short-lived signature is served that an
 \* earlier run (before time passed) had accepted: it sits in the signature
 \* cache as good (a panic there ends the behaviour in the real code)
-Logs == [i \in 1..Len(hist) |-> hist[i].adv] \o <<advlog>>
-LateBefore(r) == \E i \in 1..(r - 1) : hist[i].tp
+\* the leaf zone's node had expired while the node of the empty non-terminal
+\* above it was still cached, and the zone's node has been built again since
+EntNodeStale == \E i \in 1..Len(hist) :
+                   /\ hist[i].stale
+                   /\ \E j \in (hist[i].nf + 1)..Len(fetches) : fetches[j] = [t |-> "DS", z |-> "zone"]
 SigCacheStale ==
   \E r \in 2..Len(Logs), i \in 1..Len(Logs) :
      /\ i < r /\ LateBefore(r) /\ ~LateBefore(i)
@@ -31,7 +35,8 @@ DevSet ==
   (IF Has(msg, "inj") THEN {"D_extra_rrset_ignored"} ELSE {}) \cup
   \* a short-lived signature that was accepted (and cached as good) before time
   \* passed is served again, now expired
-  (IF SigCacheStale THEN {"D_sigcache_ignores_time"} ELSE {})
+  (IF SigCacheStale THEN {"D_sigcache_ignores_time"} ELSE {}) \cup
+  (IF EntNodeStale THEN {"D_ent_node_as_signer"} ELSE {})
 
 SetToSeq(S) == CHOOSE f \in [1..Cardinality(S) -> S] : \A i, j \in DOMAIN f : i # j => f[i] # f[j]
 \* the admitted set, the machine's own verdict first
@@ -42,6 +47,7 @@ Emit ==
      [in  |-> [shape |-> scn.shape, denial |-> scn.denial, qk |-> scn.qk,
                anc |-> scn.anc, cfg |-> scn.cfg,
                adv |-> advlog, runs |-> [i \in 1..Len(hist) |-> hist[i].adv] \o <<advlog>>,
+               qks |-> [i \in 1..Len(hist) |-> hist[i].qk] \o <<scn.qk>>,
                tps |-> <<FALSE>> \o [i \in 1..Len(hist) |-> hist[i].tp],
                rss |-> <<FALSE>> \o [i \in 1..Len(hist) |-> hist[i].rs],
                allow |-> AllowSeq, oracle |-> Oracle,
